@@ -298,6 +298,15 @@ def _isolated_job(args):
     return out
 
 
+def isolated_calls_many(modname, seed, repo, jobs, times=2, parallel=6):
+    """isolated_calls for a list of (fn_name, case), several fresh processes at a time (one process per job)."""
+    from concurrent.futures import ThreadPoolExecutor
+    if not jobs:
+        return []
+    with ThreadPoolExecutor(max(1, min(parallel, len(jobs)))) as tp:
+        return list(tp.map(lambda j: isolated_calls(modname, seed, repo, j[0], j[1], times), jobs))
+
+
 def isolated_calls(modname, seed, repo, fn_name, case, times=2):
     """The case function `times` times in ONE fresh worker process: ('ok', [[signatures] per call]) or ('died', None)
     when the process does not survive (a crash inside compiled code of the implementation)."""
